@@ -81,7 +81,6 @@ impl TraitHandler for DebugStructHandler {
                     if let Some(method) = field_attribute.method {
                         builder_token_stream.extend(super::common::create_format_arg(
                             ast,
-                            ty,
                             &method,
                             quote!(&self.#field_name),
                         ));
@@ -131,7 +130,6 @@ impl TraitHandler for DebugStructHandler {
                     if let Some(method) = field_attribute.method {
                         builder_token_stream.extend(super::common::create_format_arg(
                             ast,
-                            ty,
                             &method,
                             quote!(&self.#field_name),
                         ));
